@@ -48,7 +48,7 @@ def run(ctx, chk):
             for p in rets:
                 t = p.ret
                 ok = an.is_call(t, "<codec::amino::Amino as codec::Codec>::unsafe_from_bits") and \
-                    an.is_call(t[2][0], re.compile(r"^<&seq::slice::SeqSlice<codec::dna::Dna> as std::convert::Into<u8>>::into$"), (P(2),))
+                    an.is_call(t[2][0], re.compile(r"^CONV<&seq::slice::SeqSlice<(codec::dna::Dna|A)> -> u8>$"), (P(2),))
                 chk.ob("G19/value", "Standard::to_amino", ok, "returns %s; expected Amino::unsafe_from_bits(u8::from(codon))" % show(t), b["span"], sample=show(t))
         # the byte read is load_le::<u8>(content)  (imported row)
         b = an.one(chk, "S-byte", cfg.bio, "u8::from(&SeqSlice)", name="from", trait="std::convert::From", self_re=r"^u8$", targ_re=r"^&seq::slice::SeqSlice<A>$")
